@@ -1,13 +1,459 @@
+// c03: normalisation preserves meaning, validity, is idempotent and canonical.
+//
+//	c03 gen    -seed S -n N -out FILE [-dump FILE]   generated cases
+//	c03 corpus -in FILE -out FILE                    stored cases (JSON lines, the -dump format)
+//	c03 one    -in FILE [-i K]                       human-readable trace of one stored case
+//
+// Every case is run through the REAL normalisation in the order and with the options
+// ExecutionEngine.Execute uses (graphql.Request.Normalize / ValidateForSchema / Normalize with
+// extraction / VariablesMapper / variables validation); the observables are written as one
+// S-expression per line for the extracted checker (ocaml/c03/driver.ml).
 package main
 
 import (
+	"bufio"
+	"encoding/json"
 	"fmt"
-	"gvh/c03x"
-	"github.com/wundergraph/graphql-go-tools/v2/pkg/astvisitor"
+	"os"
+	"sort"
+	"strings"
+
+	x "gvh/c03x"
+	"gvh/common"
+
+	"github.com/wundergraph/graphql-go-tools/execution/graphql"
+	"github.com/wundergraph/graphql-go-tools/v2/pkg/ast"
+	"github.com/wundergraph/graphql-go-tools/v2/pkg/astnormalization"
+	"github.com/wundergraph/graphql-go-tools/v2/pkg/astparser"
+	"github.com/wundergraph/graphql-go-tools/v2/pkg/astprinter"
+	"github.com/wundergraph/graphql-go-tools/v2/pkg/astvalidation"
+	"github.com/wundergraph/graphql-go-tools/v2/pkg/operationreport"
+	"github.com/wundergraph/graphql-go-tools/v2/pkg/variablesvalidation"
 )
 
+// entry is one stored case: everything needed to re-run it (also the corpus format).
+type entry struct {
+	ID        string   `json:"id"`
+	SDL       string   `json:"sdl"`
+	Schema    string   `json:"schema"`    // FEDLAB schema S-expression of the same SDL
+	Universes []string `json:"universes"` // FEDLAB universe S-expressions
+	Query     string   `json:"query"`
+	Op        string   `json:"op"`
+	Vars      *string  `json:"vars"` // JSON text; null = request without variables
+	Query2    string   `json:"query2,omitempty"`
+	Vars2     *string  `json:"vars2,omitempty"`
+	Kinds     []string `json:"kinds,omitempty"`
+	Flags     []string `json:"flags,omitempty"`
+	origSexp  string
+}
+
+type seqOut struct {
+	stage    string // "" = completed; else the step that rejected the request
+	msg      string
+	norm1    string // printed after the first normalisation
+	normDoc  string // S-expression after the second normalisation
+	normPr   string
+	normVars []byte
+	mapDoc   string
+	mapPr    string
+	mapping  map[string]string // new name -> old name
+	mapVars  *x.J
+	validFinal bool
+	finalMsg   string
+}
+
+func printDoc(d *ast.Document) string {
+	s, err := astprinter.PrintString(d)
+	if err != nil {
+		return "<print error: " + err.Error() + ">"
+	}
+	return s
+}
+
+func errText(err error, errs error) string {
+	if err != nil {
+		return err.Error()
+	}
+	if errs != nil {
+		return errs.Error()
+	}
+	return ""
+}
+
+// engineSequence mirrors execution/engine.(*ExecutionEngine).Execute up to and including the
+// variables validation (lines "normalize := !operation.IsNormalized()" .. "ValidateWithRemap").
+func engineSequence(schema *graphql.Schema, query, opName string, vars []byte) *seqOut {
+	out := &seqOut{}
+	operation := &graphql.Request{OperationName: opName, Variables: vars, Query: query}
+	func() {
+		defer func() {
+			if r := recover(); r != nil {
+				out.stage = "panic"
+				out.msg = fmt.Sprint(r)
+			}
+		}()
+		result, err := operation.Normalize(schema,
+			astnormalization.WithRemoveFragmentDefinitions(),
+			astnormalization.WithRemoveUnusedVariables(),
+			astnormalization.WithInlineFragmentSpreads(),
+			astnormalization.WithEnableDefer(),
+			astnormalization.WithPrevalidationRules(
+				astvalidation.DeferStreamOnValidOperations(),
+				astvalidation.DeferStreamHaveUniqueLabels(),
+				astvalidation.DirectivesAreInValidLocations(),
+				astvalidation.StreamAppliedToListFieldsOnly()),
+		)
+		if err != nil || !result.Successful {
+			out.stage, out.msg = "norm1", errText(err, result.Errors)
+			return
+		}
+		out.norm1 = printDoc(operation.Document())
+		if result, err := operation.ValidateForSchema(schema); err != nil || !result.Valid {
+			out.stage, out.msg = "validate", errText(err, result.Errors)
+			return
+		}
+		result, err = operation.Normalize(schema, astnormalization.WithExtractVariables())
+		if err != nil || !result.Successful {
+			out.stage, out.msg = "norm2", errText(err, result.Errors)
+			return
+		}
+		out.normDoc = x.DumpDocument(operation.Document())
+		out.normPr = printDoc(operation.Document())
+		out.normVars = append([]byte(nil), operation.Variables...)
+
+		var remapReport operationreport.Report
+		remap := astnormalization.NewVariablesMapper().NormalizeOperation(operation.Document(), schema.Document(), &remapReport)
+		if remapReport.HasErrors() {
+			out.stage, out.msg = "remap", remapReport.Error()
+			return
+		}
+		out.mapping = remap
+		out.mapDoc = x.DumpDocument(operation.Document())
+		out.mapPr = printDoc(operation.Document())
+		if len(operation.Variables) > 0 && operation.Variables[0] == '{' {
+			validator := variablesvalidation.NewVariablesValidator(variablesvalidation.VariablesValidatorOptions{})
+			if err := validator.ValidateWithRemap(operation.Document(), schema.Document(), operation.Variables, remap); err != nil {
+				out.stage, out.msg = "varsvalidate", err.Error()
+				return
+			}
+		}
+		// the variables as the resolver sees them through RemapVariables: new name -> value of old name
+		vj := &x.J{K: 'o'}
+		if len(operation.Variables) > 0 {
+			p, err := x.ParseJSON(operation.Variables)
+			if err != nil {
+				out.stage, out.msg = "varsjson", err.Error()
+				return
+			}
+			vj = p
+		}
+		inv := map[string]string{}
+		for n, o := range remap {
+			inv[o] = n
+		}
+		mv := &x.J{K: 'o'}
+		for _, kv := range vj.O {
+			if n, ok := inv[kv.K]; ok {
+				mv.O = append(mv.O, x.JKV{K: n, V: kv.V})
+			} else {
+				mv.O = append(mv.O, kv)
+			}
+		}
+		out.mapVars = mv
+		// validity of the final document (the engine itself does not validate again)
+		var rep operationreport.Report
+		astvalidation.DefaultOperationValidator().Validate(operation.Document(), schema.Document(), &rep)
+		out.validFinal = !rep.HasErrors()
+		if rep.HasErrors() {
+			out.finalMsg = rep.Error()
+		}
+	}()
+	return out
+}
+
+func rawValid(schema *graphql.Schema, query string) (bool, string) {
+	doc, rep := astparser.ParseGraphqlDocumentString(query)
+	if rep.HasErrors() {
+		return false, "parse: " + rep.Error()
+	}
+	var r operationreport.Report
+	astvalidation.DefaultOperationValidator().Validate(&doc, schema.Document(), &r)
+	if r.HasErrors() {
+		return false, r.Error()
+	}
+	return true, ""
+}
+
+func varsBytes(v *string) []byte {
+	if v == nil {
+		return nil
+	}
+	return []byte(*v)
+}
+
+func jsonSexpOf(b []byte) string {
+	if len(b) == 0 {
+		return "(o)"
+	}
+	j, err := x.ParseJSON(b)
+	if err != nil {
+		return "(s " + common.QS("unparsable: "+string(b)) + ")"
+	}
+	return j.Sexp()
+}
+
+func optS(s string) string {
+	if s == "" {
+		return "(none)"
+	}
+	return common.QS(s)
+}
+
+type stats struct {
+	stages map[string]int
+	flags  map[string]int
+	kinds  map[string]int
+	sizes  []int
+}
+
+func process(e *entry, st *stats) string {
+	schema, err := graphql.NewSchemaFromString(e.SDL)
+	if err != nil {
+		return "(bad " + common.QS(e.ID) + " " + common.QS("schema: "+err.Error()) + ")"
+	}
+	var sb strings.Builder
+	sb.WriteString("(case " + common.QS(e.ID) + " (flags")
+	for _, f := range e.Flags {
+		sb.WriteString(" " + common.QS(f))
+	}
+	sb.WriteString(") " + e.Schema + " (universes " + strings.Join(e.Universes, " ") + ")")
+
+	// the original request, in tree form
+	origDoc, rep := astparser.ParseGraphqlDocumentString(e.Query)
+	if rep.HasErrors() {
+		return "(bad " + common.QS(e.ID) + " " + common.QS("parse: "+rep.Error()) + ")"
+	}
+	dumped := x.DumpDocument(&origDoc)
+	if e.origSexp != "" && e.origSexp != dumped {
+		return "(bad " + common.QS(e.ID) + " " + common.QS("harness: generator tree and parsed tree differ: "+e.origSexp+" vs "+dumped) + ")"
+	}
+	sb.WriteString(" (orig " + dumped + " " + optS(e.Op) + " " + jsonSexpOf(varsBytes(e.Vars)) + ")")
+
+	rv, rmsg := rawValid(schema, e.Query)
+	o := engineSequence(schema, e.Query, e.Op, varsBytes(e.Vars))
+	st.stages[o.stage]++
+	sb.WriteString(" (go (stage " + common.QS(o.stage) + " " + common.QS(o.msg) + ") (rawvalid " + common.B(rv) + " " + common.QS(rmsg) + ")")
+	if o.stage == "" {
+		sb.WriteString(" (norm1 " + common.QS(o.norm1) + ")")
+		sb.WriteString(" (norm " + o.normDoc + " " + jsonSexpOf(o.normVars) + " " + common.QS(o.normPr) + ")")
+		sb.WriteString(" (mapped " + o.mapDoc + " " + o.mapVars.Sexp() + " " + common.QS(o.mapPr) + ")")
+		sb.WriteString(" (validfinal " + common.B(o.validFinal) + " " + common.QS(o.finalMsg) + ")")
+		// idempotence on the real code: feed the engine its own output
+		// (a) the form before variable canonicalisation, with the variables the engine holds
+		o2 := engineSequence(schema, o.normPr, e.Op, o.normVars)
+		sb.WriteString(" (again_norm " + common.QS(o2.stage) + " " + common.QS(o2.msg) + " " + common.QS(o2.normPr) + " " + jsonSexpOf(o2.normVars) + ")")
+		// (b) the canonical form, with the variables under their canonical names
+		o3 := engineSequence(schema, o.mapPr, e.Op, []byte(o.mapVars.Text()))
+		mv := "(o)"
+		if o3.mapVars != nil {
+			mv = o3.mapVars.Sexp()
+		}
+		sb.WriteString(" (again_mapped " + common.QS(o3.stage) + " " + common.QS(o3.msg) + " " + common.QS(o3.mapPr) + " " + mv + ")")
+	}
+	sb.WriteString(")")
+
+	// per-pass chain for the model correspondence
+	sb.WriteString(" " + chain(schema, e.Query, varsBytes(e.Vars)))
+
+	// canonical form of a variant with the same meaning
+	if e.Query2 != "" {
+		ov := engineSequence(schema, e.Query2, e.Op, varsBytes(e.Vars2))
+		for _, k := range e.Kinds {
+			st.kinds[k]++
+		}
+		sb.WriteString(" (canon (kinds")
+		for _, k := range e.Kinds {
+			sb.WriteString(" " + common.QS(k))
+		}
+		sb.WriteString(") (stages " + common.QS(o.stage) + " " + common.QS(ov.stage) + " " + common.QS(ov.msg) + ")")
+		if o.stage == "" && ov.stage == "" {
+			sb.WriteString(" " + common.QS(o.mapPr) + " " + common.QS(ov.mapPr) + " " + o.mapVars.SortedTop().Sexp() + " " + ov.mapVars.SortedTop().Sexp())
+		}
+		sb.WriteString(" " + common.QS(e.Query2) + " " + jsonSexpOf(varsBytes(e.Vars2)) + ")")
+	}
+	sb.WriteString(")")
+	return sb.String()
+}
+
+func buildEntry(r *common.Rand, id string, s *x.Schema, sdl, ssexp string, unis []string, c *genCase, withVariant bool) *entry {
+	e := &entry{ID: id, SDL: sdl, Schema: ssexp, Universes: unis, Query: c.doc.GQL(), Op: c.opName, origSexp: c.doc.Sexp()}
+	if c.vars != nil {
+		t := c.vars.Text()
+		e.Vars = &t
+	}
+	var fl []string
+	for k := range c.flags {
+		fl = append(fl, k)
+	}
+	sort.Strings(fl)
+	e.Flags = fl
+	if withVariant {
+		v, kinds := rewrite(r, s, c)
+		if len(kinds) > 0 {
+			e.Query2 = v.doc.GQL()
+			if v.vars != nil {
+				t := v.vars.Text()
+				e.Vars2 = &t
+			}
+			e.Kinds = kinds
+		}
+	}
+	return e
+}
+
 func main() {
-	w := astvisitor.NewWalker(8)
-	c03x.RemoveSelfAliasing(&w)
-	fmt.Println("ok")
+	if len(os.Args) < 2 {
+		fmt.Fprintln(os.Stderr, "usage: c03 gen|corpus|one ...")
+		os.Exit(2)
+	}
+	a := common.Args(os.Args[2:])
+	st := &stats{stages: map[string]int{}, flags: map[string]int{}, kinds: map[string]int{}}
+	switch os.Args[1] {
+	case "gen":
+		seed := common.ArgU64(a, "seed", 1)
+		n := common.ArgInt(a, "n", 100)
+		out := common.NewOut(a["out"])
+		defer out.Close()
+		var dump *common.Out
+		if a["dump"] != "" {
+			dump = common.NewOut(a["dump"])
+			defer dump.Close()
+		}
+		r := common.NewRand(seed)
+		var s *x.Schema
+		var sdl, ssexp string
+		var unis []string
+		for i := 0; i < n; i++ {
+			if i%8 == 0 {
+				s = genSchema(r)
+				sdl, ssexp = s.SDL(), s.Sexp()
+			}
+			if i%4 == 0 {
+				unis = nil
+				for k, m := 0, 2+r.Pick(2); k < m; k++ {
+					unis = append(unis, genUniverse(r, s).Sexp())
+				}
+			}
+			c := genOperation(r, s)
+			id := fmt.Sprintf("g%d-%d", seed, i)
+			e := buildEntry(r, id, s, sdl, ssexp, unis, c, true)
+			for k := range c.flags {
+				st.flags[k]++
+			}
+			st.sizes = append(st.sizes, len(e.Query))
+			if dump != nil {
+				b, _ := json.Marshal(e)
+				dump.Line(string(b))
+			}
+			out.Line(process(e, st))
+			// the variant is a case of its own too
+			if e.Query2 != "" {
+				e2 := &entry{ID: id + "v", SDL: sdl, Schema: ssexp, Universes: unis, Query: e.Query2, Op: e.Op, Vars: e.Vars2, Flags: append([]string{"variant"}, e.Kinds...)}
+				if dump != nil {
+					b, _ := json.Marshal(e2)
+					dump.Line(string(b))
+				}
+				out.Line(process(e2, st))
+			}
+		}
+		writeStats(a["stats"], st)
+	case "corpus":
+		f, err := os.Open(a["in"])
+		if err != nil {
+			panic(err)
+		}
+		defer f.Close()
+		out := common.NewOut(a["out"])
+		defer out.Close()
+		sc := bufio.NewScanner(f)
+		sc.Buffer(make([]byte, 1<<20), 1<<26)
+		for sc.Scan() {
+			line := strings.TrimSpace(sc.Text())
+			if line == "" || line[0] == '#' {
+				continue
+			}
+			var e entry
+			if err := json.Unmarshal([]byte(line), &e); err != nil {
+				out.Line("(bad \"corpus\" " + common.QS(err.Error()) + ")")
+				continue
+			}
+			out.Line(process(&e, st))
+		}
+		writeStats(a["stats"], st)
+	case "one":
+		f, err := os.Open(a["in"])
+		if err != nil {
+			panic(err)
+		}
+		defer f.Close()
+		sc := bufio.NewScanner(f)
+		sc.Buffer(make([]byte, 1<<20), 1<<26)
+		want := a["id"]
+		for sc.Scan() {
+			var e entry
+			if json.Unmarshal(sc.Bytes(), &e) != nil || (want != "" && e.ID != want) {
+				continue
+			}
+			trace(&e)
+		}
+	default:
+		fmt.Fprintln(os.Stderr, "unknown command")
+		os.Exit(2)
+	}
+}
+
+func writeStats(path string, st *stats) {
+	if path == "" {
+		return
+	}
+	m := map[string]any{"stages": st.stages, "flags": st.flags, "variant_kinds": st.kinds}
+	if len(st.sizes) > 0 {
+		sort.Ints(st.sizes)
+		m["query_bytes"] = map[string]int{"min": st.sizes[0], "median": st.sizes[len(st.sizes)/2], "max": st.sizes[len(st.sizes)-1]}
+	}
+	b, _ := json.MarshalIndent(m, "", " ")
+	os.WriteFile(path, b, 0o644)
+}
+
+func trace(e *entry) {
+	schema, err := graphql.NewSchemaFromString(e.SDL)
+	if err != nil {
+		fmt.Println("schema error:", err)
+		return
+	}
+	fmt.Println("== case", e.ID)
+	fmt.Println("query:", e.Query)
+	fmt.Println("op:", e.Op, "vars:", string(varsBytes(e.Vars)))
+	o := engineSequence(schema, e.Query, e.Op, varsBytes(e.Vars))
+	fmt.Println("stage:", o.stage, o.msg)
+	fmt.Println("norm1 :", o.norm1)
+	fmt.Println("norm2 :", o.normPr, " vars:", string(o.normVars))
+	fmt.Println("mapped:", o.mapPr, " mapping:", o.mapping)
+	if o.mapVars != nil {
+		fmt.Println("mapped vars:", o.mapVars.Text())
+	}
+	fmt.Println("valid final:", o.validFinal, o.finalMsg)
+	rv, msg := rawValid(schema, e.Query)
+	fmt.Println("raw valid:", rv, msg)
+	if e.Query2 != "" {
+		fmt.Println("-- variant", e.Kinds)
+		fmt.Println("query2:", e.Query2, " vars2:", string(varsBytes(e.Vars2)))
+		ov := engineSequence(schema, e.Query2, e.Op, varsBytes(e.Vars2))
+		fmt.Println("stage:", ov.stage, ov.msg)
+		fmt.Println("mapped:", ov.mapPr)
+		if ov.mapVars != nil {
+			fmt.Println("mapped vars:", ov.mapVars.Text())
+		}
+	}
+	fmt.Println(chainTrace(schema, e.Query, varsBytes(e.Vars)))
 }
